@@ -5,18 +5,25 @@ Import ListNotations.
 From BWPlanner Require Import Terms Rows Clause Store Fetch Plan PatternSpec RowsProofs FetchProofs PlanProofs SpecProofs SpecSound Equiv Canon Domain Uniform Compose Compose2.
 
 (* ---------- projection *)
-Lemma apply_proj_equiv : forall rows mus p, Forall2 row_equiv rows mus -> Forall2 row_equiv (apply_proj rows p) (apply_proj mus p).
+Lemma write_alias_equiv : forall l l' a a',
+  Forall2 (fun pv pv' => fst pv = fst pv' /\ opt_rel cequiv (snd pv) (snd pv')) l l' -> row_equiv a a' ->
+  row_equiv (fold_left write_alias l a) (fold_left write_alias l' a').
 Proof.
-  intros rows mus p H. unfold apply_proj. destruct (is_empty (snd p)); [exact H|].
-  induction H as [|r mu rows mus Hr H IH]; cbn; constructor; [|exact IH].
-  destruct (get_equiv r mu (fst p) Hr) as [|v v' Hv]; [apply del_equiv; exact Hr|apply set_equiv; assumption].
+  intros l l' a a' H. revert a a'. induction H as [|[p v] [p' v'] l l' [E Hv] H IH]; intros a a' Ha; cbn [fold_left]; [exact Ha|].
+  cbn in E, Hv. subst p'. apply IH. unfold write_alias. cbn [fst snd].
+  destruct (is_empty (snd p)); [exact Ha|].
+  destruct Hv as [|w w' Hw]; [apply del_equiv; exact Ha|apply set_equiv; assumption].
+Qed.
+
+Lemma project_row_equiv : forall projs r mu, row_equiv r mu -> row_equiv (project_row projs r) (project_row projs mu).
+Proof.
+  intros projs r mu H. unfold project_row. apply write_alias_equiv; [|exact H].
+  induction projs as [|p projs IH]; cbn; constructor; [|exact IH]. split; [reflexivity|]. apply get_equiv. exact H.
 Qed.
 
 Lemma fold_proj_equiv : forall projs rows mus, Forall2 row_equiv rows mus ->
-  Forall2 row_equiv (fold_left apply_proj projs rows) (fold_left apply_proj projs mus).
-Proof.
-  induction projs as [|p projs IH]; intros rows mus H; cbn; [exact H|]. apply IH. apply apply_proj_equiv. exact H.
-Qed.
+  Forall2 row_equiv (map (project_row projs) rows) (map (project_row projs) mus).
+Proof. intros projs rows mus H. induction H; cbn; constructor; [apply project_row_equiv; assumption|assumption]. Qed.
 
 Definition orow_equiv (a b : list (option cell)) : Prop := Forall2 (opt_rel cequiv) a b.
 
@@ -24,10 +31,9 @@ Lemma out_equiv : forall bs r mu, row_equiv r mu -> orow_equiv (map (get r) bs) 
 Proof. intros bs r mu H. induction bs; cbn; constructor; [apply get_equiv; exact H|assumption]. Qed.
 
 Lemma spec_project_eq : forall outs projs mus,
-  spec_project outs projs mus = map (fun r => map (get r) (add_all [] outs)) (fold_left apply_proj projs mus).
+  spec_project outs projs mus = map (fun r => map (get r) (add_all [] outs)) (map (project_row projs) mus).
 Proof. reflexivity. Qed.
 
-(* ---------- the domain *)
 Lemma forallb_d10 : forall cs, forallb d10_clause cs = true -> Forall d3c cs.
 Proof.
   induction cs as [|c cs IH]; intros H; constructor; cbn in H; apply andb_prop in H; destruct H as [A B].
@@ -89,7 +95,7 @@ Proof.
   destruct (pattern_is_solutions e gs glo Hks Hsl H9 H14 Hoid Hsb Hg c cs' HD Hopt) as [t [Et Rt]].
   unfold execute. rewrite Et. cbn [bind]. unfold spec_select. rewrite spec_project_eq.
   pose proof (fold_proj_equiv projs _ _ Rt) as Rp. unfold project.
-  destruct (fold_left apply_proj projs (trows t)) as [|r0 rs0] eqn:Er.
+  destruct (map (project_row projs) (trows t)) as [|r0 rs0] eqn:Er.
   - rewrite H0. inversion Rp; subst. eexists _, _. split; [reflexivity|constructor].
   - eexists _, _. split; [reflexivity|].
     apply (Forall2_map2 orow_equiv _ _ row_equiv _ _ Rp). intros a b Hab. apply out_equiv. exact Hab.
@@ -169,11 +175,19 @@ Proof.
       * apply Hsub. exact G1.
 Qed.
 
+Definition no_window (c : clause) : bool := is_empty (cPLoA c) && is_empty (cPUpA c).
+
+Lemma no_window_ok : forall c mu t, no_window c = true -> row_bounds_ok c mu t = true.
+Proof.
+  intros c mu t H. unfold no_window in H. apply andb_prop in H. destruct H as [A B].
+  unfold row_bounds_ok, row_bound. rewrite A, B. destruct (panchor (tpred t)); reflexivity.
+Qed.
+
 Lemma spec_step_complete : forall glo gs c mus mu r0 g t,
-  c_opt c = false -> In r0 mus -> sub_equiv r0 mu -> In g gs -> In t g -> clause_match c glo t mu ->
+  c_opt c = false -> no_window c = true -> In r0 mus -> sub_equiv r0 mu -> In g gs -> In t g -> clause_match c glo t mu ->
   exists r1, In r1 (spec_step glo gs c mus) /\ sub_equiv r1 mu.
 Proof.
-  intros glo gs c mus mu r0 g t Hopt Hr0 Hsub Hg Ht [Hc Hb].
+  intros glo gs c mus mu r0 g t Hopt Hnw Hr0 Hsub Hg Ht [Hc Hb].
   destruct (spec_bind_complete (binders c) t mu [] Hb) as [rb [Eb Sb]]; [intros k v G; discriminate|].
   assert (Hrow : spec_row c glo t = Some rb) by (unfold spec_row; rewrite Hc, Hopt; exact Eb).
   assert (Hnk : nodup_keys rb) by (eapply spec_bind_nodup_keys; [exact Eb|exact I]).
@@ -187,7 +201,7 @@ Proof.
   - unfold spec_step. apply in_flat_map. exists r0. split; [exact Hr0|].
     assert (Hin : In (merge_rows r0 rb) (spec_extend c glo gs r0)).
     { unfold spec_extend. apply in_flat_map. exists g. split; [exact Hg|]. apply in_flat_map. exists t. split; [exact Ht|].
-      rewrite Hrow, Hcomp. left. reflexivity. }
+      rewrite Hrow, Hcomp, (no_window_ok c r0 t Hnw). left. reflexivity. }
     destruct (spec_extend c glo gs r0); [destruct Hin|exact Hin].
   - intros k v G. rewrite get_merge in G. destruct (get r0 k) as [v0|] eqn:G0.
     + inversion G; subst. apply Hsub. exact G0.
@@ -195,16 +209,16 @@ Proof.
 Qed.
 
 Theorem spec_solutions_complete : forall glo gs cs mu,
-  forallb (fun c => negb (c_opt c)) cs = true -> is_solution cs glo gs mu ->
+  forallb (fun c => negb (c_opt c) && no_window c) cs = true -> is_solution cs glo gs mu ->
   exists r, In r (spec_solutions glo gs cs) /\ sub_equiv r mu.
 Proof.
   intros glo gs cs mu Hno Hsol. unfold spec_solutions.
-  assert (G : forall cs mus, forallb (fun c => negb (c_opt c)) cs = true ->
+  assert (G : forall cs mus, forallb (fun c => negb (c_opt c) && no_window c) cs = true ->
             (forall c, In c cs -> exists g t, In g gs /\ In t g /\ clause_match c glo t mu) ->
             (exists r0, In r0 mus /\ sub_equiv r0 mu) ->
             exists r, In r (fold_left (fun m c => spec_step glo gs c m) cs mus) /\ sub_equiv r mu).
   { clear. induction cs as [|c cs IH]; intros mus Hno Hall Hex; cbn; [exact Hex|].
-    cbn in Hno. apply andb_prop in Hno. destruct Hno as [Hc Hcs]. apply negb_true_iff in Hc.
+    cbn in Hno. apply andb_prop in Hno. destruct Hno as [Hc Hcs]. apply andb_prop in Hc. destruct Hc as [Hc Hw]. apply negb_true_iff in Hc.
     apply IH; [exact Hcs|intros; apply Hall; right; assumption|].
     destruct Hex as [r0 [Hr0 Hs0]]. destruct (Hall c (or_introl eq_refl)) as [g [t [Hg [Ht Hm]]]].
     eapply spec_step_complete; eauto. }
@@ -227,6 +241,19 @@ Proof.
   destruct (IHForall2 Hin) as [x' [A1 A2]]. exists x'. split; [right; assumption|assumption].
 Qed.
 
+Lemma d3c_no_window : forall c, d3c c -> no_window c = true.
+Proof.
+  intros c D. pose proof (d_nb c D) as Hnb. unfold no_bounds in Hnb.
+  apply andb_prop in Hnb. destruct Hnb as [Hnb _]. apply andb_prop in Hnb. destruct Hnb as [Hnb _]. exact Hnb.
+Qed.
+
+Lemma no_opt_no_window : forall cs, forallb (fun c => negb (c_opt c)) cs = true -> Forall d3c cs ->
+  forallb (fun c => negb (c_opt c) && no_window c) cs = true.
+Proof.
+  intros cs H HD. induction HD as [|c cs Dc Dcs IH]; [reflexivity|]. cbn in *. apply andb_prop in H. destruct H as [A B].
+  rewrite A, (d3c_no_window c Dc), (IH B). reflexivity.
+Qed.
+
 Theorem pattern_sound_complete : forall e gs glo cs outs, D3 e gs cs outs = true ->
   exists t, process_pattern e gs glo cs empty_table = Ok t /\
     (forall r, In r (trows t) -> is_solution cs glo gs r) /\
@@ -242,7 +269,7 @@ Proof.
     pose proof (spec_solutions_sound glo gs (c :: cs) mu Hno Hmu) as Hs.
     intros c0 Hc0. destruct (Hs c0 Hc0) as [g [t0 [A [B C]]]]. exists g, t0. split; [exact A|]. split; [exact B|].
     eapply clause_match_equiv; eauto.
-  - intros mu Hs. destruct (spec_solutions_complete glo gs (c :: cs) mu Hno Hs) as [r' [Hr' Sr']].
+  - intros mu Hs. destruct (spec_solutions_complete glo gs (c :: cs) mu (no_opt_no_window _ Hno HD) Hs) as [r' [Hr' Sr']].
     destruct (Forall2_in_r _ _ _ _ Rt Hr') as [r [Hr Heq]]. exists r. split; [exact Hr|].
     intros k v G. pose proof (get_equiv r r' k Heq) as Ge. rewrite G in Ge. inversion Ge as [|a b Hab Ea Eb]; subst.
     destruct (Sr' k b (eq_sym Eb)) as [w [Gw Cw]]. exists w. split; [exact Gw|]. eapply cell_equiv_trans; eauto.
